@@ -48,6 +48,10 @@ def run(ctx):
     c02.r3_r5_counts(ctx)
     ctx.alias = {}
     c08.check_signature_clone(ctx, 'R6')
+    # "differs from the kern export only in the pitch letters": the agnostic tokenizers receive the very category set the others do
+    ctx.alias = {'R5': 'R10'}
+    c04.r5_factory(ctx)
+    ctx.alias = {}
     if ctx.tier == 'thorough':
         from .. import regen
         regen.check(ctx, 'R7')
